@@ -492,6 +492,14 @@ def i_udiv(ins, fmap):
     _xs1[32:64] = y
     _xs2 = src2.zeroextend(64)
     _xs1.sf = _xs2.sf = False
+    if fmap(src2 == 0):
+        # division_by_zero trap (not modelled): the results are unknown
+        fmap[y] = top(32)
+        if dst is not g0:
+            fmap[dst] = top(32)
+        if ins.misc["icc"]:
+            fmap[icc] = top(4)
+        return
     _r = fmap(_xs1 / _xs2)
     _v = cst(0xFFFFFFFF, 64)
     _dst = tst(_r > _v, _v[0:32], _r[0:32])
@@ -514,6 +522,14 @@ def i_sdiv(ins, fmap):
     _xs1[32:64] = y
     _xs2 = src2.zeroextend(64)
     _xs1.sf = _xs2.sf = True
+    if fmap(src2 == 0):
+        # division_by_zero trap (not modelled): the results are unknown
+        fmap[y] = top(32)
+        if dst is not g0:
+            fmap[dst] = top(32)
+        if ins.misc["icc"]:
+            fmap[icc] = top(4)
+        return
     _r = fmap(_xs1 / _xs2)
     _v = cst(0x7FFFFFFF, 64)
     _dst = tst(_r > _v, _v[0:32], _r[0:32])
